@@ -62,6 +62,7 @@ def handleL4 (j : Json) : Except String Json := do
      ("agree", Json.bool ds.isEmpty),
      ("affects", Json.arr (ds.map (fun d => Json.str d.1)).eraseDups.toArray),
      ("diff", Json.str (String.intercalate "; " (ds.map (·.2)))),
+     ("c09", Json.bool (holdsC09tx c o)),
      ("c12", Json.bool (holdsC12 c o)), ("c13", Json.bool (holdsC13 c o)),
      ("c14", Json.bool (holdsC14 c o)), ("c15", Json.bool (holdsC15 c o)),
      ("c20", Json.bool (holdsC20 c o))])
@@ -142,8 +143,10 @@ def handleL5 (j : Json) : Except String Json := do
      ("diff", Json.str (if dsegs then "driver log segments differ" else if dpairs then "cache content differs" else "")),
      ("c09", Json.bool (holdsC09 execs)),
      ("c10", Json.bool (holdsC10 execs (gn oj "closedErrs") && closedUse == 0)),
-     ("c11", Json.bool (if gb oj "noStats" then doubleClose == 0 && (!(gb oj "allDropped") || openStmts == 0)
-        else holdsC11 doubleClose openStmts opairs.length 1 (gb oj "allDropped") opairs.length))])
+     -- C11 also says an evicted statement is closed only once its last user has finished
+     ("c11", Json.bool (execs.all (fun e => !e.closedBefore) &&
+        (if gb oj "noStats" then doubleClose == 0 && (!(gb oj "allDropped") || openStmts == 0)
+         else holdsC11 doubleClose openStmts opairs.length 1 (gb oj "allDropped") opairs.length)))])
 
 open Sqlair.Cache in
 def handleL5c (j : Json) : Except String Json := do
@@ -152,10 +155,11 @@ def handleL5c (j : Json) : Except String Json := do
   let c09 := holdsC09 execs
   let c10 := holdsC10 execs (gn oj "closedErrs")
   -- everything was dropped and collected: nothing may be left open or cached
-  let c11 := holdsC11 (gn oj "doubleClose") (gn oj "openStmts") (gn oj "cacheLeft") 4 true (gn oj "cacheLeft")
+  let c11 := execs.all (fun e => !e.closedBefore) && gn oj "closedErrs" == 0 &&
+    holdsC11 (gn oj "doubleClose") (gn oj "openStmts") (gn oj "cacheLeft") 4 true (gn oj "cacheLeft")
   let why := (if c09 then "" else "an execution used a statement prepared for another SQL or DB; ") ++
     (if c10 then "" else "a closed statement was executed; ") ++
-    (if c11 then "" else s!"after dropping everything: open driver statements {gn oj "openStmts"}, cache entries {gn oj "cacheLeft"}, double closes {gn oj "doubleClose"}")
+    (if c11 then "" else s!"a statement was closed while a user still held it, or after dropping everything: open driver statements {gn oj "openStmts"}, cache entries {gn oj "cacheLeft"}, double closes {gn oj "doubleClose"}")
   pure (Json.mkObj [("c09", Json.bool c09), ("c10", Json.bool c10), ("c11", Json.bool c11), ("why", Json.str why),
     ("execs", (execs.length : Json))])
 
